@@ -19,7 +19,8 @@ func packetsWithSizeFromBytes(length int, r io.Reader) []packet {
 	var packets []packet
 	for {
 		var value = make([]byte, length)
-		n, err := r.Read(value)
+		// a reader may return fewer bytes than asked for without being at its end
+		n, err := io.ReadFull(r, value)
 		if n == 0 {
 			break
 		}
@@ -31,7 +32,7 @@ func packetsWithSizeFromBytes(length int, r io.Reader) []packet {
 		p := packet{length: n, value: value[:n]}
 		packets = append(packets, p)
 
-		if n < length || err == io.EOF {
+		if n < length || err != nil {
 			break
 		}
 	}
